@@ -1159,7 +1159,7 @@ func rulePostDispose(c *Ctx) {
 				if _, ok := isCallTo(call, targets...); !ok {
 					continue
 				}
-				if p.guardedBy(call, boolFieldGuard(fDisp, false)) != nil {
+				if p.guardedByNow(call, boolFieldGuard(fDisp, false)) != nil {
 					continue
 				}
 				if _, ok := exceptions[fnName(fn)]; ok {
@@ -1171,8 +1171,14 @@ func rulePostDispose(c *Ctx) {
 						if cf == nil || cf.Parent() == nil || e.Site == nil || !p.isRepoFn(cf) || e.Site.Common().StaticCallee() != fn {
 							continue
 						}
+						if why, ok := exceptions[fnName(TopLevel(cf))]; ok {
+							// a phase of an excepted function split off into a named method: same exception
+							c.inst(1)
+							c.ok(fnName(cf)+" → "+fnName(fn), "no request after dispose", p.InstrPos(e.Site), "exception: "+why)
+							continue
+						}
 						c.inst(1)
-						c.check(p.guardedBy(e.Site, boolFieldGuard(fDisp, false)) != nil, fnName(cf)+" → "+fnName(fn), "no request after dispose", p.InstrPos(e.Site), "call of the requesting function dominated by !c.disposing in the continuation", "a continuation (service answer, queued task) issues a service request on the connection's behalf after it was disposed")
+						c.check(p.guardedByNow(e.Site, boolFieldGuard(fDisp, false)) != nil, fnName(cf)+" → "+fnName(fn), "no request after dispose", p.InstrPos(e.Site), "call of the requesting function dominated by !c.disposing in the continuation", "a continuation (service answer, queued task) issues a service request on the connection's behalf after it was disposed")
 					}
 				}
 			}
@@ -1192,7 +1198,7 @@ func rulePostDispose(c *Ctx) {
 				c.ok(key, what, p.InstrPos(call), "exception: "+why)
 				continue
 			}
-			g := p.guardedBy(call, boolFieldGuard(fDisp, false))
+			g := p.guardedByNow(call, boolFieldGuard(fDisp, false))
 			_ = name
 			c.check(g != nil, key, what, p.InstrPos(call), "request dominated by !c.disposing in the continuation", "a continuation queued before the connection was disposed issues a service request on its behalf afterwards")
 		}
